@@ -73,7 +73,9 @@ pub fn ty(t: &Type) -> String {
         Principal => "principal".into(),
         Unknown => "unknown".into(),
         Future => "future".into(),
-        Knot(id) => format!("(knot {})", hs(&format!("{id}"))),
+        // TypeContainer leaves Knot nodes inside the definitions it copies from the memo; the definition
+        // they refer to is in the same environment under the TypeId's name
+        Knot(id) => format!("(var {})", hs(&format!("{id}"))),
         Var(x) => format!("(var {})", hs(x)),
         Opt(t) => format!("(opt {})", ty(t)),
         Vec(t) => format!("(vec {})", ty(t)),
